@@ -391,7 +391,13 @@ func (l *Lexer) consumeCustomVariableToken() bool {
 	// expect to be on a '-'
 	if l.r.Peek(1) != '-' {
 		return false
-	} else if !l.consumeIdentToken() {
+	}
+	mark := l.r.Pos()
+	if !l.consumeIdentToken() {
+		return false
+	} else if l.r.Peek(0) == '(' {
+		// a name directly followed by a parenthesis is a function token, also when it starts with two dashes
+		l.r.Rewind(mark)
 		return false
 	}
 	return true
